@@ -169,32 +169,25 @@ theorem normalize_domain (r : Raw) : (normalize r).domain = lower r.domain := by
     · rfl
     · split <;> rfl
 
-theorem normalize_answer (r : Raw) : (normalize r).answer = r.answer := by
-  unfold normalize
+/-- `normalize` leaves every prepared entry in case-folded form: the pattern is
+lower-cased, and so is the answer of a CNAME entry (repair 3bb3ec2). -/
+theorem foldEntry_normalize (r : Raw) : Spec.foldEntry (normalize r) = normalize r := by
+  unfold normalize Spec.foldEntry
   simp only
   split
-  · rfl
+  · simp [lower_idem]
   · split
-    · rfl
-    · split <;> rfl
+    · simp [lower_idem]
+    · split
+      · simp [lower_idem]
+      · next is4 ip _ => cases is4 <;> simp [lower_idem]
 
-/-- `normalize` lower-cases the patterns; if the configured CNAME answers are in
-lower case too, the prepared table has lower-case names. -/
-theorem prepare_lowerNames (rs : List Raw)
-    (hans : ∀ r ∈ rs, (normalize r).typ = .CNAME → lower r.answer = r.answer) :
-    Spec.LowerNames (prepare rs) := by
+/-- Every table that went through `prepareRewrites` has lower-case names. -/
+theorem prepare_lowerNames (rs : List Raw) : Spec.LowerNames (prepare rs) := by
   intro e he
   unfold prepare at he
-  obtain ⟨r, hr, rfl⟩ := List.mem_map.mp he
-  unfold Spec.foldEntry
-  have hd : lower (normalize r).domain = (normalize r).domain := by
-    rw [normalize_domain, lower_idem]
-  have ha : (if (normalize r).typ = .CNAME then lower (normalize r).answer else (normalize r).answer) =
-      (normalize r).answer := by
-    split
-    · next hc => rw [normalize_answer]; exact hans r hr hc
-    · rfl
-  rw [hd, ha]
+  obtain ⟨r, _, rfl⟩ := List.mem_map.mp he
+  exact foldEntry_normalize r
 
 /-- A non-rewritten result is judged by the spec on its `rewritten` flag alone. -/
 theorem finalOK_not_rewritten (tbl : List Entry) (qt : Nat) (cur : Bytes) (hopped : Bool) (o : Out)
